@@ -912,10 +912,30 @@ class OmniParser(PVLParser):
     """
 
     def _empty_value(self, pos):
-        eq_pos = self.doc.rfind("=", 0, pos)
+        eq_pos = self._last_equals_before(pos)
         lc = linecount(self.doc, eq_pos)
         self.errors.append(lc)
         return EmptyValueAtLine(lc)
+
+    def _last_equals_before(self, pos):
+        """Returns the position of the last equals sign *token* that
+        starts before *pos*.  Searching the text itself for "=" would also
+        find the ones inside of comments and quoted strings.
+        """
+        eq_pos = None
+        try:
+            for t in self.lexer(
+                self.doc[:pos], g=self.grammar, d=self.decoder
+            ):
+                if t == "=":
+                    eq_pos = t.pos
+        except LexerError:
+            pass
+
+        if eq_pos is None:
+            eq_pos = self.doc.rfind("=", 0, pos)
+
+        return eq_pos
 
     def parse(self, s: str):
         """Extends the parent function.
@@ -1005,8 +1025,9 @@ class OmniParser(PVLParser):
             return super().parse_assignment_statement(tokens)
         except ParseError as err:
             if err.token is not None:
-                after_eq = self.doc.find("=", err.token.pos) + 1
-                return str(err.token), self._empty_value(after_eq)
+                # The tokens ran out after the equals sign, so it is
+                # the last one in the text.
+                return str(err.token), self._empty_value(len(self.doc))
             else:
                 raise
 
